@@ -27,6 +27,11 @@ impl FeoxStore {
             .map_or(0, |write_buffer| write_buffer.verif_requests_queued())
     }
 
+    /// Index of the hash-table bucket (the unit of locking) the key maps to.
+    pub fn verif_bucket_of(&self, key: &[u8]) -> usize {
+        self.hash_table.bucket_index(key)
+    }
+
     pub fn verif_clock_shard_of(&self, key: &[u8]) -> usize {
         self.version_clock.shard_index(key)
     }
